@@ -79,32 +79,37 @@ type payload struct {
 	nSent   int
 	escaped string // the literal markup that must NOT appear as real markup in the output ("" = n/a)
 	markup  bool   // author wrote inline markup (not meaningful for title/preview)
+	// a piece of the source that must come out letter for letter: character data whose DECODED value looks like a character
+	// reference (the author wrote &amp;lt; to show "&lt;") must be escaped again, not passed through for the client to decode
+	verbatim string
 }
 
 func payloads() []payload {
 	return []payload{
-		{"plain", "S1E", 1, "", false},
-		{"inline-markup", "S1E <b>S2E</b> S3E", 3, "", true},
-		{"nested-markup", "<span>S1E <i>S2E</i></span>", 2, "", true},
-		{"link", `S1E <a href="http://x/l?a=1&amp;b=2">S2E</a>`, 2, "", true},
-		{"escaped-markup", "&lt;b&gt;S1E&lt;/b&gt;", 1, "<b>S1E</b>", false},
-		{"numeric-lt", "S1E &#60;i&#62;S2E", 2, "<i>S2E", false},
-		{"hex-lt", "S1E &#x3c;u&#x3e;S2E", 2, "<u>S2E", false},
-		{"amp-entity", "S1E &amp; S2E", 2, "", false},
-		{"named-entities", "S1E &nbsp;&copy;&eacute; S2E", 2, "", false},
-		{"quotes", `S1E "q" 'a' S2E`, 2, "", false},
-		{"br", "S1E<br/>S2E", 2, "", true},
+		{"plain", "S1E", 1, "", false, ""},
+		{"inline-markup", "S1E <b>S2E</b> S3E", 3, "", true, ""},
+		{"nested-markup", "<span>S1E <i>S2E</i></span>", 2, "", true, ""},
+		{"link", `S1E <a href="http://x/l?a=1&amp;b=2">S2E</a>`, 2, "", true, ""},
+		{"escaped-markup", "&lt;b&gt;S1E&lt;/b&gt;", 1, "<b>S1E</b>", false, ""},
+		{"numeric-lt", "S1E &#60;i&#62;S2E", 2, "<i>S2E", false, ""},
+		{"hex-lt", "S1E &#x3c;u&#x3e;S2E", 2, "<u>S2E", false, ""},
+		{"amp-entity", "S1E &amp; S2E", 2, "", false, ""},
+		{"named-entities", "S1E &nbsp;&copy;&eacute; S2E", 2, "", false, ""},
+		{"quotes", `S1E "q" 'a' S2E`, 2, "", false, ""},
+		{"br", "S1E<br/>S2E", 2, "", true, ""},
 		// letters whose case-folded form has another byte length (İ, Kelvin sign, ẞ, Ω), CJK, an astral character: a byte offset
 		// computed on a folded copy of the document would cut the content short
-		{"non-ascii", "İstanbul İİ S1E \u212a \u2126 \u1e9e 日本語 😀 S2E", 2, "", false},
-		{"non-ascii-one", "S1E İstanbul S2E", 2, "", false},
+		{"non-ascii", "İstanbul İİ S1E \u212a \u2126 \u1e9e 日本語 😀 S2E", 2, "", false, ""},
+		{"non-ascii-one", "S1E İstanbul S2E", 2, "", false, ""},
+		{"amp-then-entity-name", "S1E &amp;lt;b&amp;gt; &amp;nbsp; &amp;amp; &amp;copy; S2E", 2, "", false, "&amp;lt;b&amp;gt; &amp;nbsp; &amp;amp; &amp;copy;"},
+		{"amp-then-numeric", "S1E &amp;#60;i&amp;#62; &amp;#x3c; &amp;#160; S2E", 2, "", false, "&amp;#60;i&amp;#62; &amp;#x3c; &amp;#160;"},
 	}
 }
 
 var sentRe = regexp.MustCompile(`S(\d+)E`)
 
 func runC04(res *Result, tier string, seed int64, replay string) {
-	res.Rule = "(1) content matrix, EXHAUSTIVE: 10 content slots (text, button, table cell, raw, navbar link, social element, accordion title/text, title, preview) × 9 placements (column, second column, group, hero, wrapper, middle of three sections, after a chaining section, background-image section, full-width section) × 13 payloads (plain, inline / nested markup, link with &amp;, escaped markup &lt;b&gt;, numeric and hex character references for '<', &amp;, HTML named entities, quotes, <br/>, non-ASCII letters whose case folding changes their byte length), unique sentinels in reading order; the Lean oracle on the real bytes says which sentinels standard clients see (in order) and which sit only in Outlook blocks; escaped markup must not come out as markup; a document that loses content must return an error. (2) the layout documents of C02/C03 with a sentinel in every slot. Non-trivial = every cell; distinct by (slot, placement, payload)"
+	res.Rule = "(1) content matrix, EXHAUSTIVE: 10 content slots (text, button, table cell, raw, navbar link, social element, accordion title/text, title, preview) × 9 placements (column, second column, group, hero, wrapper, middle of three sections, after a chaining section, background-image section, full-width section) × 15 payloads (plain, inline / nested markup, link with &amp;, escaped markup &lt;b&gt;, numeric and hex character references for '<', &amp;, HTML named entities, quotes, <br/>, non-ASCII letters whose case folding changes their byte length, character data whose decoded value looks like a character reference), unique sentinels in reading order; the Lean oracle on the real bytes says which sentinels standard clients see (in order) and which sit only in Outlook blocks; escaped markup must not come out as markup; a document that loses content must return an error. (2) the layout documents of C02/C03 with a sentinel in every slot. Non-trivial = every cell; distinct by (slot, placement, payload)"
 	drv, err := startDriverPool(12)
 	if err != nil {
 		res.Disagree(Violation{Sig: "driver-missing", What: err.Error()})
@@ -210,6 +215,9 @@ func runC04(res *Result, tier string, seed int64, replay string) {
 		}
 		if clause == "" && c.pl.escaped != "" && strings.Contains(html, c.pl.escaped) {
 			clause = "chardata-became-markup"
+		}
+		if clause == "" && c.pl.verbatim != "" && !strings.Contains(html, c.pl.verbatim) {
+			clause = "chardata-decoded-twice"
 		}
 		if clause == "" && c.pl.markup && !c.s.head {
 			// author markup must still be markup: the tag around S2E survives
